@@ -323,7 +323,10 @@ type hydra struct {
 	// summoningSwamps csak olyan swampokat tárol, amiket éppen summonolunk, hogy két rutin ne summonolhassa ugyanazt
 	// a swampot, különben képesek lennének egyszerre létrehozni, ugyanazt a swampot. Így ha az egyik summonolja a swampot,
 	// akkor meg kell várja a másik, hogy az első visszakapja azt.
-	summoningSwamps sync.Map
+	// Guarded by summoningMu: a slot is created, referenced and dropped under this mutex, so it can only be
+	// dropped when no summoner references it any more.
+	summoningSwamps map[string]*SwampWaiter
+	summoningMu     sync.Mutex
 
 	// interfaces
 	elysiumInterface  safeops.Safeops
@@ -369,7 +372,7 @@ func (h *hydra) GetLocker() lock.Lock {
 type SwampWaiter struct {
 	cond  *sync.Cond
 	ready bool
-	count int32 // store the number of waiting goroutines
+	refs  int // number of summoners that hold a reference to this slot (guarded by hydra.summoningMu)
 }
 
 func newSwampWaiter() *SwampWaiter {
@@ -392,8 +395,28 @@ func (h *hydra) SummonSwamp(ctx context.Context, islandID uint64, swampName name
 	// if the ok is true then the swamp is already summoning, so we need to wait for the other process to finish the summoning process
 	// if the ok is false then the swamp is not summoning, so we can start the summoning process and store the swamp in the map
 	// immediately
-	result, _ := h.summoningSwamps.LoadOrStore(swampName.Get(), newSwampWaiter())
-	waiter, _ := result.(*SwampWaiter)
+	slotKey := swampName.Get()
+	h.summoningMu.Lock()
+	if h.summoningSwamps == nil {
+		h.summoningSwamps = make(map[string]*SwampWaiter)
+	}
+	waiter, ok := h.summoningSwamps[slotKey]
+	if !ok {
+		waiter = newSwampWaiter()
+		h.summoningSwamps[slotKey] = waiter
+	}
+	waiter.refs++
+	h.summoningMu.Unlock()
+
+	// releaseSlot drops this summoner's reference; the slot is removed only when nobody references it
+	releaseSlot := func() {
+		h.summoningMu.Lock()
+		waiter.refs--
+		if waiter.refs == 0 {
+			delete(h.summoningSwamps, slotKey)
+		}
+		h.summoningMu.Unlock()
+	}
 
 	// lezárjuk a következő kódrészt, így csak egyetlen rutin futhatja egyszerre egy domain néven belül
 	waiter.cond.L.Lock()
@@ -403,9 +426,9 @@ func (h *hydra) SummonSwamp(ctx context.Context, islandID uint64, swampName name
 			// Ha a kontextus megszakad, jelezzük a többi várakozó goroutinnak, hogy ne várjanak tovább
 			waiter.cond.Broadcast()
 			waiter.cond.L.Unlock()
+			releaseSlot()
 			return nil, ctx.Err() // Visszatérünk a kontextus hibaüzenetével
 		default:
-			atomic.AddInt32(&waiter.count, 1)
 			waiter.cond.Wait()
 		}
 	}
@@ -418,12 +441,8 @@ func (h *hydra) SummonSwamp(ctx context.Context, islandID uint64, swampName name
 		waiter.ready = false
 		waiter.cond.Broadcast() // Értesítjük a többi várakozót
 		waiter.cond.L.Unlock()
-		// csökkentjük a várakozó goroutinok számát
-		atomic.AddInt32(&waiter.count, -1)
-		// ha nincs több várakozó goroutin, akkor töröljük a várakozó mapből a swampot
-		if atomic.LoadInt32(&waiter.count) == 0 {
-			h.summoningSwamps.Delete(swampName.Get())
-		}
+		// ha nincs több hivatkozó goroutin, akkor töröljük a várakozó mapből a swampot
+		releaseSlot()
 	}()
 
 	var swampObject swamp.Swamp
